@@ -24,6 +24,8 @@ BUILD = os.path.join(VERIF, "_build")
 TARGET = os.path.join(BUILD, "target")
 HARNESS = os.path.join(VERIF, "harness")
 B64 = 1 << 64
+CHUNK_TIMEOUT = 150     # seconds for one harness process over its share of the cases
+LINE_TIMEOUT = 10       # seconds for a single call when a chunk died or hung
 
 WIDTHS_QUICK = [0, 1, 2, 3, 7, 8, 9, 31, 60, 63, 64, 65, 66, 127, 128, 129, 192, 250,
                 255, 256, 257, 320, 512, 536]
@@ -183,6 +185,8 @@ def res_to_coq(line):
         return "Panic"
     if line == "CE":
         return "CompileError"
+    if line == "T":
+        return "OutOfFuel"       # the implementation did not terminate (harness timeout)
     return "(Val %s)" % coq_list([tok_to_coq_res(t) for t in line.split()])
 
 
@@ -299,17 +303,29 @@ def run_harness(binname, profile, lines, shards=16):
     chunks = [lines[i::k] for i in range(k)]
 
     def go(chunk):
-        p = subprocess.run([exe], input="\n".join(chunk) + "\n", stdout=subprocess.PIPE,
-                           stderr=subprocess.PIPE, text=True)
-        out = p.stdout.splitlines()
-        if p.returncode != 0 or len(out) != len(chunk):
-            # the process died (abort, stack overflow ...): isolate line by line
+        try:
+            p = subprocess.run([exe], input="\n".join(chunk) + "\n", stdout=subprocess.PIPE,
+                               stderr=subprocess.PIPE, text=True, timeout=CHUNK_TIMEOUT)
+            out = p.stdout.splitlines()
+            ok = p.returncode == 0 and len(out) == len(chunk)
+        except subprocess.TimeoutExpired:
+            out, ok = [], False
+        if not ok:
+            # the process died (abort, stack overflow ...) or hangs: isolate line by line;
+            # `T` = this call did not terminate within LINE_TIMEOUT (translated to OutOfFuel,
+            # which no model answer and no specification accepts)
             out = []
+            hangs = 0
             for ln in chunk:
-                q = subprocess.run([exe], input=ln + "\n", stdout=subprocess.PIPE,
-                                   stderr=subprocess.PIPE, text=True)
-                o = q.stdout.splitlines()
-                out.append(o[0] if (q.returncode == 0 and len(o) == 1) else "P")
+                try:
+                    q = subprocess.run([exe], input=ln + "\n", stdout=subprocess.PIPE,
+                                       stderr=subprocess.PIPE, text=True,
+                                       timeout=LINE_TIMEOUT if hangs < 3 else 2)
+                    o = q.stdout.splitlines()
+                    out.append(o[0] if (q.returncode == 0 and len(o) == 1) else "P")
+                except subprocess.TimeoutExpired:
+                    hangs += 1
+                    out.append("T")
         return out
 
     with ThreadPoolExecutor(max_workers=k) as ex:
